@@ -147,15 +147,15 @@ theorem C10_reply_has_lease_time {cfg req ids st r st'} (h : Handles cfg req ids
       ∃ row, rowOf st'.rows r.yiaddr = some row ∧ row.expiry - row.start = L := by
   cases h with
   | grant c rq pool resp isReq x ty d now' blob hp _ _ =>
-    refine ⟨clamp d Generated.Dhcp.defaultMinLease Generated.Dhcp.defaultMaxLease, ?_, ?_, ?_, ?_⟩
+    refine ⟨leaseFor d Generated.Dhcp.defaultMinLease Generated.Dhcp.defaultMaxLease (remainingOf st.rows c x now'), ?_, ?_, ?_, ?_⟩
     · have : (isReq || Generated.Dhcp.offerHasLeaseTime) = true := by
         have : Generated.Dhcp.offerHasLeaseTime = true := by decide
         simp [this]
       simp only [reply, this, if_true]
       exact lookup_toOptions_setOpt_same _ _ _
-    · unfold clamp; simp [Generated.Dhcp.defaultMinLease, Generated.Dhcp.defaultMaxLease]; omega
-    · unfold clamp; simp [Generated.Dhcp.defaultMaxLease]; omega
-    · refine ⟨grantRow c x now' (clamp d Generated.Dhcp.defaultMinLease Generated.Dhcp.defaultMaxLease) blob, ?_, ?_⟩
+    · unfold leaseFor clamp; simp [Generated.Dhcp.defaultMinLease, Generated.Dhcp.defaultMaxLease]; omega
+    · unfold leaseFor clamp; simp [Generated.Dhcp.defaultMaxLease]; omega
+    · refine ⟨grantRow c x now' (leaseFor d Generated.Dhcp.defaultMinLease Generated.Dhcp.defaultMaxLease (remainingOf st.rows c x now')) blob, ?_, ?_⟩
       · simp [reply, Pool.grant, rowOf_put, grantRow]
       · simp [grantRow]
 
